@@ -31,7 +31,20 @@ def run(chk):
         ok &= cl.req("PUT", "/bk1", query={"acl": ""}, headers={"x-amz-grant-full-control": "usr,own"}).status in (200, 204)
         ok &= cl.req("PUT", "/bk2", query={"ownershipControls": ""}, body=c02.OWNERSHIP).status in (200, 204)
         ok &= cl.req("PUT", "/bk2", query={"acl": ""}, headers={"x-amz-grant-full-control": "usr,own"}).status in (200, 204)
+        ok &= cl.req("PUT", "/bk1/obj", query={"tagging": ""}, body=c02.TAGGING).status in (200, 204)
+        vid1 = cl.req("HEAD", "/bk1/obj").headers.get("x-amz-version-id", "null")
         chk.require(ok, "c15:setup", "populating the site with a read-write gateway failed")
+        # request forms of the mutating endpoints that take a path of their own through the handlers
+        more = [("DeleteObject?versionId", "DELETE", "/bk1/obj", {"versionId": vid1}, b"", {}),
+                ("DeleteObject?versionId=null", "DELETE", "/bk2/other", {"versionId": "null"}, b"", {}),
+                ("DeleteObjects(version)", "POST", "/bk1", {"delete": ""}, ("<Delete><Object><Key>obj</Key><VersionId>%s</VersionId></Object></Delete>" % vid1).encode(), {}),
+                ("PutObjectTagging(empty TagSet)", "PUT", "/bk1/obj", {"tagging": ""}, b"<Tagging><TagSet></TagSet></Tagging>", {}),
+                ("PutObjectTagging(<TagSet/>)", "PUT", "/bk1/obj", {"tagging": ""}, b"<Tagging><TagSet/></Tagging>", {}),
+                ("PutBucketTagging(empty TagSet)", "PUT", "/bk1", {"tagging": ""}, b"<Tagging><TagSet></TagSet></Tagging>", {}),
+                ("PutObject(empty, no length)", "PUT", "/bk1/obj", {}, b"", {}),
+                ("CopyObject(onto itself, REPLACE)", "PUT", "/bk1/obj", {}, b"", {"x-amz-copy-source": "bk1/obj", "x-amz-metadata-directive": "REPLACE", "x-amz-meta-n": "v"}),
+                ("PutObjectLegalHold(OFF)", "PUT", "/bk1/obj", {"legal-hold": ""}, b"<LegalHold><Status>OFF</Status></LegalHold>", {}),
+                ("PutBucketVersioning(Suspended)", "PUT", "/bk1", {"versioning": ""}, b"<VersioningConfiguration><Status>Suspended</Status></VersioningConfiguration>", {})]
         g.stop()
         site.cfg["readonly"] = True
         g = site.gateway(gwbin)
@@ -39,7 +52,7 @@ def run(chk):
         callers = {"root": s3c.Client(g.port, "root", "rootsecret"), "admin": s3c.Client(g.port, "adm", "adm-secret"),
                    "userplus": s3c.Client(g.port, "own", "own-secret"), "user+FULL_CONTROL": s3c.Client(g.port, "usr", "usr-secret")}
         before = e2e.snapshot(*roots)
-        for ep in c02.endpoints(uid):
+        for ep in c02.endpoints(uid) + more:
             if ep[0].startswith("admin:"):
                 continue          # the admin API is not the S3 API (DESIGN §9.7)
             for role, c in callers.items():
